@@ -547,6 +547,41 @@ def main(argv):
                     real_violations.append(f)
                     break
 
+    # bounded stand-ins for functions outside the verifier's reach (the generated parser): never counted as proved
+    bounded_results = []
+    try:
+        import bounded
+        import witness as _w
+    except ImportError:
+        bounded = None
+    if bounded and pid in bounded.CHECKS:
+        binp, blog = _w.build_ironplcc()
+        if not binp:
+            undecided.append("bounded stand-ins: could not build ironplcc: %s" % blog[-300:])
+        else:
+            for fn in bounded.CHECKS[pid]:
+                r = fn(binp)
+                bounded_results.append({"name": r["name"], "bound": r["bound"], "evaluations": r["evaluations"], "failures": len(r["failures"]),
+                                        "level": "bounded (not a proof; not counted among the obligations)"})
+                for bf in r["failures"][:5]:
+                    n = len(real_violations)
+                    rp = os.path.join(REPLAY, "%s-b%d.json" % (pid, n))
+                    if r["name"] == "precedence":
+                        cand = {"for": "bounded", "kind": "echo", "name": "precedence of `%s`" % bf.get("statement", ""), "files": {"prec.st": bf["input"]},
+                                "expect_contains": [bf["expected"]] if bf.get("expected") else []}
+                        clause = "`%s` must be grouped as `%s`, the parser gives `%s`" % (bf.get("statement"), bf.get("expected"), bf.get("rendered", bf.get("problem")))
+                    else:
+                        cand = {"for": "bounded", "kind": "bounded_pair", "name": "%s, %s" % (bf["program"], bf["transformation"]),
+                                "original_text": bf["original_text"], "transformed_text": bf["input"], "fold_case": bf["fold_case"]}
+                        clause = "%s under the transformation `%s` no longer parses to the same library / gets another verdict" % (bf["program"], bf["transformation"])
+                    f = {"obligation": "bounded/%s/%s" % (r["name"], hashlib.sha256(clause.encode()).hexdigest()[:8]), "kind": "bounded-stand-in", "item": None, "src": "parser/src/parser.rs (peg grammar)",
+                         "clause": clause, "unit": "bounded", "message": "bounded stand-in for the generated parser failed on the real binary",
+                         "witness": {"candidate": cand, "observation": {k: v for k, v in bf.items() if k not in ("input", "original_text")}, "how": "ironplcc built from /repo working tree"}, "replay": rp}
+                    json.dump({"property": pid, "obligation": f["obligation"], "kind": f["kind"], "function": "plc_parser (generated by peg::parser!)", "source": f["src"],
+                               "clause": clause, "verifier": "bounded check of the real binary (tools/bounded.py)", "verifier_message": f["message"], "verifier_output": "",
+                               "witness": f["witness"], "note": "replay with ./check %s --replay %s" % (pid, rp)}, open(rp, "w"), indent=1)
+                    real_violations.append(f)
+
     for k in kani_results:
         if k["status"] != "successful":
             undecided.append("kani: assumed contract harness %s: %s" % (k["harness"], k["status"]))
@@ -593,6 +628,7 @@ def main(argv):
             "open_known_findings": [{"obligation": f["obligation"], "what": next((k.get("what") for k in known if k["obligation"] == f["obligation"]), "")} for f in knownhits],
             "known_findings_hit": [f["obligation"] for f in knownhits],
             "kani_validation_of_assumed_contracts": kani_results,
+            "bounded_stand_ins": bounded_results,
         },
         "assumptions": sorted(assumptions),
         "wall_s": round(wall, 2),
